@@ -98,7 +98,11 @@ func c06FmtCall(reqs []gmsl.VerifyJSONRequest, wantMsg []byte) string {
 	if !msgOK {
 		s += " MSG-NOT-REDACTED-FORM"
 	}
-	return s
+	can, err := gmsl.CanonicalJSON(reqs[0].Message)
+	if err != nil {
+		return s + " msg=NOT-JSON"
+	}
+	return s + " msg=" + string(can)
 }
 
 func c06Verdict(err error) string {
